@@ -179,12 +179,29 @@ pub struct LyingIter {
     n: usize,
     i: usize,
     hint: u8,
+    /// `next()` call number that panics (scripted), if any
+    panic_at: Option<usize>,
     log: Rc<LieLog>,
+}
+/// which `next()` call of an iterator panics: from the second script byte (one case in four has a panic)
+fn iter_panic_at(script: &[u8], n: usize) -> Option<usize> {
+    let b = *script.get(1).unwrap_or(&0) as usize;
+    match b % 4 {
+        3 => Some((b / 4) % (n + 2)),
+        _ => None,
+    }
+}
+fn scripted_iter_panic(log: &LieLog, at: Option<usize>, call: usize) {
+    if at == Some(call) {
+        log.panics.set(log.panics.get() + 1);
+        panic!("iterator next() panicked (scripted)");
+    }
 }
 impl Iterator for LyingIter {
     type Item = u8;
     fn next(&mut self) -> Option<u8> {
         self.log.tick(false);
+        scripted_iter_panic(&self.log, self.panic_at, self.i);
         if self.i < self.n {
             self.i += 1;
             Some(self.i as u8)
@@ -211,12 +228,14 @@ impl Iterator for LyingIter {
 struct BytesIter {
     parts: Vec<Bytes>,
     hint: u8,
+    panic_at: Option<usize>,
     log: Rc<LieLog>,
 }
 impl Iterator for BytesIter {
     type Item = Bytes;
     fn next(&mut self) -> Option<Bytes> {
         self.log.tick(false);
+        scripted_iter_panic(&self.log, self.panic_at, self.parts.len());
         self.parts.pop()
     }
     fn size_hint(&self) -> (usize, Option<usize>) {
@@ -307,6 +326,46 @@ pub struct FOut {
 }
 
 const G: usize = 64;
+
+/// destination of an `extend`: every representation a `BytesMut` can be in (the second value keeps a sibling alive)
+fn iter_dest(k: usize) -> (BytesMut, Option<BytesMut>) {
+    match k % 7 {
+        0 => (BytesMut::new(), None),
+        1 => (BytesMut::with_capacity(k % 16), None),
+        2 => {
+            // vector representation with contents and a little spare room
+            let mut b = BytesMut::with_capacity(k + 3);
+            b.resize(k, 0x21);
+            (b, None)
+        }
+        3 => {
+            // vector representation at an offset
+            let mut b = BytesMut::with_capacity(k + 9);
+            b.resize(k + 4, 0x21);
+            b.advance(3);
+            (b, None)
+        }
+        4 => {
+            // shared representation, sole handle
+            let mut b = BytesMut::with_capacity(k + 9);
+            b.resize(k + 4, 0x21);
+            drop(b.split_to(2));
+            (b, None)
+        }
+        5 => {
+            // shared representation, a sibling lives right behind the view
+            let mut b = BytesMut::with_capacity(k + 12);
+            b.resize(k + 8, 0x21);
+            let tail = b.split_off(k + 4);
+            (b, Some(tail))
+        }
+        _ => {
+            // exactly full vector
+            let b = BytesMut::from(&vec![0x21u8; k + 1][..]);
+            (b, None)
+        }
+    }
+}
 
 fn run_once(c: &FCase) -> FOut {
     oalloc::set_parity((c.param & 1) as usize);
@@ -488,28 +547,37 @@ fn run_once(c: &FCase) -> FOut {
                 cur.advance(r / 2);
             }
             33 => {
-                let mut b = BytesMut::with_capacity(k % 16);
-                b.extend(LyingIter { n, i: 0, hint: c.script.first().copied().unwrap_or(0), log: log.clone() });
+                // the iterator yields up to 8 * n bytes, so that the destination has to grow (several times) while the
+                // iterator is still being driven - and possibly panics in between
+                let n_it = if k % 3 == 0 { n } else { n * 8 };
+                let pa = iter_panic_at(&c.script, n_it);
+                let (mut b, keep) = iter_dest(k);
+                b.extend(LyingIter { n: n_it, i: 0, hint: c.script.first().copied().unwrap_or(0), panic_at: pa, log: log.clone() });
                 let _ = b.len();
+                drop(keep);
             }
-            34 => drop(BytesMut::from_iter(LyingIter { n, i: 0, hint: c.script.first().copied().unwrap_or(0), log: log.clone() })),
-            35 => drop(Bytes::from_iter(LyingIter { n, i: 0, hint: c.script.first().copied().unwrap_or(0), log: log.clone() })),
+            34 => drop(BytesMut::from_iter(LyingIter { n, i: 0, hint: c.script.first().copied().unwrap_or(0), panic_at: iter_panic_at(&c.script, n), log: log.clone() })),
+            35 => drop(Bytes::from_iter(LyingIter { n, i: 0, hint: c.script.first().copied().unwrap_or(0), panic_at: iter_panic_at(&c.script, n), log: log.clone() })),
             36 => {
-                let parts: Vec<Bytes> = (0..(n % 5)).map(|i| Bytes::from(vec![i as u8; i + 1])).collect();
-                let mut b = BytesMut::new();
-                b.extend(BytesIter { parts, hint: c.script.first().copied().unwrap_or(0), log: log.clone() });
+                let np = n % 5;
+                let parts: Vec<Bytes> = (0..np).map(|i| Bytes::from(vec![i as u8; i * 9 + 1])).collect();
+                let (mut b, keep) = iter_dest(k);
+                b.extend(BytesIter { parts, hint: c.script.first().copied().unwrap_or(0), panic_at: iter_panic_at(&c.script, np), log: log.clone() });
+                drop(keep);
             }
             37 => {
-                let src: Vec<u8> = (0..n as u8).collect();
+                let src: Vec<u8> = (0..(n * if k % 3 == 0 { 1 } else { 8 })).map(|i| i as u8).collect();
                 struct RefIter<'a> {
                     it: std::slice::Iter<'a, u8>,
                     hint: u8,
+                    panic_at: Option<usize>,
                     log: Rc<LieLog>,
                 }
                 impl<'a> Iterator for RefIter<'a> {
                     type Item = &'a u8;
                     fn next(&mut self) -> Option<&'a u8> {
                         self.log.tick(false);
+                        scripted_iter_panic(&self.log, self.panic_at, self.it.len());
                         self.it.next()
                     }
                     fn size_hint(&self) -> (usize, Option<usize>) {
@@ -522,8 +590,9 @@ fn run_once(c: &FCase) -> FOut {
                         }
                     }
                 }
-                let mut b = BytesMut::new();
-                b.extend(RefIter { it: src.iter(), hint: c.script.first().copied().unwrap_or(0), log: log.clone() });
+                let (mut b, keep) = iter_dest(k);
+                b.extend(RefIter { it: src.iter(), hint: c.script.first().copied().unwrap_or(0), panic_at: iter_panic_at(&c.script, n), log: log.clone() });
+                drop(keep);
             }
             #[cfg(feature = "bserde")]
             38 | 39 => {
@@ -534,12 +603,19 @@ fn run_once(c: &FCase) -> FOut {
                     n: usize,
                     i: usize,
                     hint: u8,
+                    fail_at: Option<usize>,
                     log: Rc<LieLog>,
                 }
                 impl<'de> SeqAccess<'de> for S {
                     type Error = DeError;
                     fn next_element_seed<T: DeserializeSeed<'de>>(&mut self, seed: T) -> Result<Option<T::Value>, DeError> {
                         self.log.tick(false);
+                        if self.fail_at == Some(self.i) {
+                            if self.hint & 0x80 != 0 {
+                                scripted_iter_panic(&self.log, self.fail_at, self.i);
+                            }
+                            return Err(serde::de::Error::custom("scripted failure"));
+                        }
                         if self.i >= self.n {
                             return Ok(None);
                         }
@@ -569,7 +645,7 @@ fn run_once(c: &FCase) -> FOut {
                         newtype_struct seq tuple tuple_struct map struct enum identifier ignored_any
                     }
                 }
-                let s = S { n: n * 200, i: 0, hint: c.script.first().copied().unwrap_or(0), log: log.clone() };
+                let s = S { n: n * 200, i: 0, hint: c.script.first().copied().unwrap_or(0), fail_at: iter_panic_at(&c.script, n * 200), log: log.clone() };
                 if consumer == 38 {
                     drop(Bytes::deserialize(D(s)));
                 } else {
